@@ -5,6 +5,9 @@
 package xport
 
 import (
+	"net"
+	"os"
+	"syscall"
 	"errors"
 	"fmt"
 	"io"
@@ -245,4 +248,30 @@ func Plans(seed int64, marks []int) []Plan {
 		{Kind: "whole", EOFWithData: true},
 		{Kind: "fixed", K: 7, Hiccup: 3},
 	}
+}
+
+// FaultKinds are the errors a failing destination / transport may answer with: a failed write is a failed write
+// whatever the error's type or the predicates it offers - a plain error, an expired write deadline (net.Error with
+// Timeout() true), a "temporary" network error, the io package's sentinel values, a broken pipe.
+type netErr struct {
+	msg                string
+	timeout, temporary bool
+}
+
+func (e *netErr) Error() string   { return e.msg }
+func (e *netErr) Timeout() bool   { return e.timeout }
+func (e *netErr) Temporary() bool { return e.temporary }
+
+var FaultKinds = []struct {
+	Name string
+	Err  error
+}{
+	{"plain", ErrInjected},
+	{"deadline", &net.OpError{Op: "write", Net: "tcp", Err: os.ErrDeadlineExceeded}},
+	{"timeout", &netErr{"injected i/o timeout", true, true}},
+	{"temporary", &netErr{"injected temporary failure", false, true}},
+	{"short-write", io.ErrShortWrite},
+	{"eof", io.EOF},
+	{"epipe", &net.OpError{Op: "write", Net: "tcp", Err: syscall.EPIPE}},
+	{"closed", net.ErrClosed},
 }
